@@ -10,7 +10,7 @@ import time
 import traceback
 
 
-class Watchdog(BaseException):
+class Watchdog(KeyboardInterrupt):
     """Wall-clock watchdog fired: the case is inconclusive"""
 
 
